@@ -106,8 +106,11 @@ def isDone (w : W G) : Aw → Bool
     | some m => m.out.isSome
     | none => false
 
-/-- `future.result()` turned into what is fed to the generator.  A cancelled future is outside the domain
-    (assumption); natively it raises `CancelledError` in the awaiting coroutine. -/
+/-- `future.result()` turned into what is fed to the generator.  A cancelled future raises `CancelledError`
+    (a BaseException): `Runner.run` catches it explicitly (`except (Exception, asyncio.CancelledError)`, the fix
+    recorded in known_findings/C37.json — before it the exception escaped `run`, was swallowed by
+    `IOLoop._run_callback` and the coroutine stayed pending for ever) and throws it into the generator, as a Task
+    does for a native coroutine.  A `multi` future with a cancelled child carries `CancelledError` as its exception. -/
 def feedOf (w : W G) : Aw → Input
   | .null => .send .none
   | .moment => .send .none
@@ -254,7 +257,13 @@ inductive Instr where
   | cset (v : Nat)       -- `CV.set(v)`
   | tset (v : Nat)       -- `tok = CV.set(v)`
   | treset               -- `CV.reset(tok); tok = None` + read   (no token held: effect `noToken`)
+  | onlyE (l : Nat)      -- head of an `except E:` clause: the exception being handled is not an `E`
+                         -- (`CancelledError` is a BaseException) → not caught, continue at `l` (finally + re-raise)
   deriving DecidableEq, Repr
+
+/-- the body's own exception class `E` (codes ≥ 3); 0/1/2 are CancelledError / TimeoutError / InvalidStateError,
+    which `except E:` does not catch -/
+def isE (e : Nat) : Bool := 3 ≤ e
 
 /-- effect recorded by `treset` when the body holds no token (the harness renders the same constant) -/
 def noToken : Nat := 998
@@ -296,6 +305,7 @@ def go : Nat → PS → List Eff → Step PS
       match ps.tok with
       | some old => go n { ps with pc := ps.pc + 1, cv := old, tok := none } (effs ++ [Eff.k old])
       | none => go n { ps with pc := ps.pc + 1 } (effs ++ [Eff.k noToken])
+    | some (.onlyE l) => go n { ps with pc := if isE ps.cur then ps.pc + 1 else l } effs
 def unwind : Nat → PS → List Eff → Nat → Step PS
   | 0, _, effs, _ => .raise effs C36.invalidState
   | n + 1, ps, effs, e =>
